@@ -1,9 +1,13 @@
 import TwistedModel.Log.FlatFormat
+import TwistedModel.Log.FlatReent
 /-!
 Driver glue for C56.  Wire format (no spaces inside a token):
   text  := code points in decimal joined by `.`, terminated by `;`   (empty text = `;`)
   val   := `T`text | `I`[-]digits`;` | `B0` | `B1` | `N` | `L` val* `e` | `D` (`k` text val)* `e`
          | `O` text(str) text(repr) (`k` text val)* `e` (`c` val | `n`)
+  a re-entrant object (hook) is an `O` value with the reserved attributes `\x01S`, `\x01R`, `\x01L`, each a list of
+  actions `L T<kind> T<prep> T<field> <inner event D…> e` (see TwistedModel/Log/FlatReent.lean); the event is run with
+  the world-threaded machinery (`flattenEventW` …, every KeyFlattener an allocation) at hook nesting level 6
   `C56 all <val>`    the event (a `D` value, `log_format` included) →
         `orig=<res>|flat=<res>|flat2=<res>|json=<res>|keys=<text>*|jev=<val or !Err>`
         res = `ok:`text or `!`ErrorClass; keys = the keys of log_flattened after flattenEvent, in order
@@ -11,6 +15,7 @@ Driver glue for C56.  Wire format (no spaces inside a token):
 -/
 namespace Twisted.Drv.C56
 open Twisted.Log.FlatFormat
+open Twisted.Log.FlatReent
 
 partial def decText (s : List Char) (acc : Text) : Option (Text × List Char) :=
   match s with
@@ -94,13 +99,27 @@ def handle (args : List String) : String :=
   | ["all", v] =>
     match decVal v.toList with
     | some (Val.dict ev, []) =>
-      let O := pyOps
+      let OW := opsLevel pyOps 6
+      let O := OW.pure
+      let w0 : World := ⟨[]⟩
       let orig := formatEvent O ev
-      let fl := flattenEvent O ev
-      let flat := fl.bind (formatEvent O)
-      let flat2 := fl.bind fun e => (flattenEvent O e).bind (formatEvent O)
-      let jev := jsonRoundTrip O ev
-      let json := jev.bind (formatEvent O)
+      let flw := flattenEventW OW ev w0
+      let fl := flw.1
+      let flatw : Except Err Text × World := match fl with
+        | .ok e => formatEventW OW e flw.2
+        | .error e => (.error e, flw.2)
+      let flat := flatw.1
+      let flat2w : Except Err Text × World := match fl with
+        | .ok e => (match flattenEventW OW e flatw.2 with
+          | (.ok e2, w) => formatEventW OW e2 w
+          | (.error x, w) => (.error x, w))
+        | .error e => (.error e, flatw.2)
+      let flat2 := flat2w.1
+      let jevw := jsonRoundTripW OW ev flat2w.2
+      let jev := jevw.1
+      let json := match jev with
+        | .ok e => (formatEventW OW e jevw.2).1
+        | .error e => .error e
       let keys := match fl with
         | .ok e => (match lookup e kFlattened with
           | some (Val.dict fs) => String.join (fs.map fun (k, _) => encText k)
